@@ -8,8 +8,8 @@ import (
 	"strings"
 	"time"
 
-	"github.com/openbao/openbao/v2/internal/builtin/logical/transit"
 	"github.com/openbao/openbao/sdk/v2/logical"
+	"github.com/openbao/openbao/v2/internal/builtin/logical/transit"
 )
 
 // C17 — transit encryption round-trips, binds its inputs and honours version
@@ -213,7 +213,14 @@ func runC17(rc *RunCtx) {
 
 	// after a mutation that returned an error the key's configuration, as
 	// the API reports it, must be what it was before
+	var sigUnchanged, unchangedCT func(k *trKey, op string) bool
 	unchanged := func(k *trKey, op string) bool {
+		if !unchangedCT(k, op) {
+			return false
+		}
+		return sigUnchanged == nil || sigUnchanged(k, op)
+	}
+	unchangedCT = func(k *trKey, op string) bool {
 		resp, err := h.Do("readkey", Req{Op: logical.ReadOperation, Path: "transit/keys/" + k.name, Token: h.Root})
 		if err != nil || resp == nil || resp.IsError() {
 			return true
@@ -296,6 +303,20 @@ func runC17(rc *RunCtx) {
 		if !want && ok {
 			viol("signature-below-min-version-verified", map[string]any{"hmac": sg.hmac}, "%s: %s v%d of %s verifies although min_decryption_version=%d", phase, field, sg.version, sg.key.name, sg.key.minDec)
 			return false
+		}
+		return true
+	}
+	// ... and a signature / hmac the unchanged configuration admits still verifies
+	sigUnchanged = func(k *trKey, op string) bool {
+		for _, sg := range sigs {
+			if sg.key != k || sg.version < k.minDec || sg.version < k.minAvail {
+				continue
+			}
+			if ok, err := verifySig(sg, sg.input, sg.sig, nil); !ok || err != nil {
+				viol("failed-mutation-changed-state", map[string]any{"op": op, "commit_failed": strings.HasPrefix(lastFaultDesc, "commit")},
+					"%s of %s returned an error (storage fault at %q) and the key still reports its old configuration, but its v%d signature no longer verifies: %v", op, k.name, lastFaultDesc, sg.version, err)
+				return false
+			}
 		}
 		return true
 	}
@@ -1039,7 +1060,6 @@ func runC17(rc *RunCtx) {
 	rc.Res.Sample = map[string]any{"history": tail(hist, 25), "ciphertexts": len(cts), "crash_prefixes": crashes}
 	rc.Res.StateSig = fmt.Sprintf("k%d/c%d/s%d", len(keys), len(cts), len(sigs))
 }
-
 
 // c17Concurrent: 3-4 client tasks on key k. Oracle: every ciphertext produced
 // names a version between the latest version before the phase and after it;
